@@ -20,6 +20,8 @@ pub enum Op {
     SetEdge(u64, u64, i64),
     DeleteEdge(u64),
     Begin(bool),
+    WriteNode(u64, u64),
+    WriteEdge(u64, u64),
     Commit(u64),
     Abort(u64),
     Bump,
@@ -40,6 +42,8 @@ impl Op {
             Op::SetEdge(..) => "setRel",
             Op::DeleteEdge(_) => "deleteRel",
             Op::Begin(_) => "begin",
+            Op::WriteNode(..) => "txnWriteNode",
+            Op::WriteEdge(..) => "txnWriteRel",
             Op::Commit(_) => "commit",
             Op::Abort(_) => "abort",
             Op::Bump => "bump",
@@ -70,6 +74,8 @@ pub fn render1(op: &Op) -> String {
         Op::DeleteEdge(e) => format!("de:{}", e),
         Op::Begin(true) => "b:si".into(),
         Op::Begin(false) => "b:rc".into(),
+        Op::WriteNode(t, n) => format!("wn:{}.{}", t, n),
+        Op::WriteEdge(t, e) => format!("we:{}.{}", t, e),
         Op::Commit(t) => format!("c:{}", t),
         Op::Abort(t) => format!("a:{}", t),
         Op::Bump => "u".into(),
@@ -112,6 +118,8 @@ pub fn parse(s: &str) -> Option<Vec<Op>> {
             "se" => Op::SetEdge(n(0)?, n(1)?, iv(2)?),
             "de" => Op::DeleteEdge(n(0)?),
             "b" => Op::Begin(rest == "si"),
+            "wn" => Op::WriteNode(n(0)?, n(1)?),
+            "we" => Op::WriteEdge(n(0)?, n(1)?),
             "c" => Op::Commit(n(0)?),
             "a" => Op::Abort(n(0)?),
             "u" => Op::Bump,
@@ -301,6 +309,14 @@ pub fn apply(st: &mut GraphStore, op: &Op) -> String {
             "TB{}",
             st.begin_transaction(if *si { IsolationLevel::SnapshotIsolation } else { IsolationLevel::ReadCommitted })
         ),
+        Op::WriteNode(t, n) => {
+            st.txn_write_node(*t, NodeId::new(*n));
+            "TU".into()
+        }
+        Op::WriteEdge(t, e) => {
+            st.txn_write_edge(*t, EdgeId::new(*e));
+            "TU".into()
+        }
         Op::Commit(t) => match st.commit_transaction(*t) {
             Ok(v) => format!("TC{}", v),
             Err(e) => err_code(&e),
@@ -351,14 +367,18 @@ pub fn run_real(ops: &[Op], engine: Option<&QueryEngine>, engine_mismatch: &mut 
 }
 
 /// Appendix B for C07/C08: at least two versions of one entity exist and a read at a past
-/// version is re-checked after a later write (`need_gc`: and a `gc` pruned at least one version).
+/// version is re-checked after a later write, commit or abort (`need_gc`: and a `gc` pruned at
+/// least one version).
 pub fn nontrivial(ops: &[Op], need_gc: bool) -> bool {
     let mut st = GraphStore::new();
     let mut two_versions_then_write = false;
     let mut pruned = false;
     let mut seen_two = false;
     for op in ops {
-        let is_write = !matches!(op, Op::Begin(_) | Op::Bump | Op::Commit(_) | Op::Abort(_) | Op::GcAuto | Op::Gc(_));
+        let is_write = !matches!(
+            op,
+            Op::Begin(_) | Op::Bump | Op::GcAuto | Op::Gc(_) | Op::WriteNode(..) | Op::WriteEdge(..)
+        );
         if seen_two && is_write {
             two_versions_then_write = true;
         }
